@@ -202,6 +202,36 @@ fn decl_loc(a: &EmmyLuaAnalysis, d: &LuaSemanticDeclId) -> String {
     }
 }
 
+/// rendered member lists `{ … }` follow hash-map iteration order (C11's subject): compare them as sets
+fn norm_type(t: &str) -> String {
+    let lines: Vec<&str> = t.split('\n').collect();
+    if lines.len() < 3 {
+        return t.to_string();
+    }
+    let mut inner: Vec<&str> = lines[1..lines.len() - 1].to_vec();
+    inner.sort();
+    format!("{}\n{}\n{}", lines[0], inner.join("\n"), lines[lines.len() - 1])
+}
+
+/// a fresh analysis of the same files whose hash maps have a different insertion history (two scratch files are
+/// analysed and removed first): results that differ from `fresh` depend on hash-map iteration order
+pub fn fresh_perturbed(files: &[(String, String)], strict: bool) -> EmmyLuaAnalysis {
+    let mut a = new_analysis_cfg(strict);
+    for k in 0..2 {
+        let mut t = String::new();
+        for i in 0..12 {
+            t.push_str(&format!("---@class Zz{k}_{i}\n---@field f{i} integer\nlocal Zz{k}_{i} = {{}}\nZg{k}_{i} = {i}\n"));
+        }
+        a.update_file_by_uri(&uri_of(&format!("zz{k}.lua")), Some(t));
+    }
+    for k in 0..2 {
+        a.remove_file_by_uri(&uri_of(&format!("zz{k}.lua")));
+    }
+    let batch: Vec<(Uri, Option<String>)> = files.iter().map(|(n, t)| (uri_of(n), Some(t.clone()))).collect();
+    a.update_files_by_uri(batch);
+    a
+}
+
 /// the observable dump: section → sorted lines; no file ids, only workspace-relative names
 pub fn dump(a: &EmmyLuaAnalysis, queries: &[String]) -> BTreeMap<String, Vec<String>> {
     let mut out: BTreeMap<String, Vec<String>> = BTreeMap::new();
@@ -240,7 +270,7 @@ pub fn dump(a: &EmmyLuaAnalysis, queries: &[String]) -> BTreeMap<String, Vec<Str
                     let off = u32::from(t.text_range().start());
                     let info = model.get_semantic_info(NodeOrToken::Token(t.clone()));
                     let decl = model.find_decl(NodeOrToken::Token(t.clone()), SemanticDeclLevel::default());
-                    let ty = info.as_ref().map(|i| humanize_type(db, &i.typ, RenderLevel::Detailed)).unwrap_or("-".into());
+                    let ty = info.as_ref().map(|i| norm_type(&humanize_type(db, &i.typ, RenderLevel::Detailed))).unwrap_or("-".into());
                     let d = decl.as_ref().map(|d| decl_loc(a, d)).unwrap_or("-".into());
                     let doc = decl
                         .as_ref()
@@ -415,6 +445,9 @@ pub fn diff_dump_all(x: &BTreeMap<String, Vec<String>>, y: &BTreeMap<String, Vec
 /// which observable differs: the symptom kind of one differing dump line
 pub fn symptom_of(section: &str, a: &Option<String>, b: &Option<String>) -> String {
     let any = a.as_ref().or(b.as_ref()).cloned().unwrap_or_default();
+    if a.as_ref().map(|l| l.contains("<no-uri:")).unwrap_or(false) || b.as_ref().map(|l| l.contains("<no-uri:")).unwrap_or(false) {
+        return "stale-file-reference".into();
+    }
     if section.starts_with("diag:") {
         let code = any.split_whitespace().nth(1).unwrap_or("?").to_string();
         if let (Some(a), Some(b)) = (a, b) {
@@ -508,18 +541,25 @@ pub fn symptom_of(section: &str, a: &Option<String>, b: &Option<String>) -> Stri
     format!("section:{section}")
 }
 
-/// symptom kinds of grown entry counts (`"k: a -> b; …"` as produced by `grown_sizes`): `count:<key>+<delta>`
-/// (`count:property` for any property.* key)
+/// the grown entry counts of one comparison as ONE symptom: `counts:<key>+<delta>,<key>+<delta>,…` (sorted)
 pub fn count_symptoms(grown: &str) -> Vec<String> {
-    grown
+    let mut parts: Vec<String> = grown
         .split("; ")
         .map(|e| {
             let (k, rest) = e.split_once(": ").unwrap_or((e, ""));
             let nums: Vec<i64> = rest.split(" -> ").filter_map(|x| x.trim().parse().ok()).collect();
             let delta = if nums.len() == 2 { nums[1] - nums[0] } else { 0 };
-            if k.starts_with("property.") { "count:property".to_string() } else { format!("count:{k}+{delta}") }
+            format!("{k}+{delta}")
         })
-        .collect()
+        .collect();
+    parts.sort();
+    vec![format!("counts:{}", parts.join(","))]
+}
+
+/// parse a `counts:` symptom into (key, delta)
+pub fn parse_counts(symptom: &str) -> Option<Vec<(String, i64)>> {
+    let body = symptom.strip_prefix("counts:")?;
+    Some(body.split(',').filter_map(|p| p.rsplit_once('+').map(|(k, d)| (k.to_string(), d.parse().unwrap_or(0)))).collect())
 }
 
 /// entries of `y` (after) that exceed `x` (before): indexed state that grew
